@@ -3,7 +3,7 @@ import ast
 
 from ..astx import (calls_in, dotted, norm, src, iter_nodes, assigned_targets, assigned_names,
                     const_value, is_const, parent_chain)
-from ..lib import (cfg_nodes_with_call, node_calls, returns, raises, raised_class, stmt_assigns_attr, callee_last,
+from ..lib import (call_arg, relation, truth, other, cmp_views, core, holds_region, conditions, eval_conditions, relation_tests, atom_key, expand_condition, mode_mismatch_conditions, cfg_nodes_with_call, node_calls, returns, raises, raised_class, stmt_assigns_attr, callee_last,
                    is_name, node_roots, guard_region, compare_parts, find_test_nodes)
 from ..linear import ctext
 from ..loader import AnalysisError
@@ -196,14 +196,15 @@ def check_dispatch(c, f, loop):
     c.need(len(ts) == 2, 'dispatch: expected two isinstance tests on responses[index], found %d' % len(ts))
     t1, t2 = sorted(ts, key=lambda t: t.id)
     c.check('allowed_string_types' in norm(t1.ast), f, t1.ast, 'first case: the response is a string', kind='ast', tag='case-string')
-    sr = guard_region(g, t1, 'true')
+    sr = holds_region(g, t1, True)
     sends = [(n, k) for n, k in cfg_nodes_with_call(f, lambda k: callee_last(k) == 'send') if n in sr]
     ok = len(sends) == 1 and norm(sends[0][1].args[0]) == R
     c.check(ok, f, sends[0][1] if sends else t1.ast, 'a string response is sent to the child exactly once', witness=str([norm(k) for n, k in sends]), kind='ast', tag='string-sent')
-    okc = isinstance(t2.ast, ast.BoolOp) and isinstance(t2.ast.op, ast.Or) and sorted(norm(v) for v in t2.ast.values) == sorted(
+    c2 = core(t2)
+    okc = isinstance(c2, ast.BoolOp) and isinstance(c2.op, ast.Or) and sorted(norm(v) for v in c2.values) == sorted(
         ['isinstance(responses[index], types.FunctionType)', 'isinstance(responses[index], types.MethodType)'])
     c.check(okc, f, t2.ast, 'second case: function OR method', witness=norm(t2.ast), kind='ast', tag='case-callable')
-    cr = guard_region(g, t2, 'true')
+    cr = holds_region(g, t2, True)
     calls_ = [(n, k) for n in cr for k in node_calls(n) if norm(k.func) == R]
     ok = len(calls_) == 1 and len(calls_[0][1].args) == 1 and norm(calls_[0][1].args[0]) == 'locals()' and isinstance(calls_[0][0].ast, ast.Assign)
     c.check(ok, f, calls_[0][1] if calls_ else t2.ast, 'the callback is called once with the state dictionary locals()', kind='ast', tag='callback-call')
@@ -212,12 +213,12 @@ def check_dispatch(c, f, loop):
         t3 = [t for t in cr if t.kind == 'test' and 'isinstance(%s' % rv in norm(t.ast)]
         c.check(len(t3) == 1, f, t3[0].ast if t3 else t2.ast, 'a string result is recognised', kind='ast', tag='callback-string')
         if t3:
-            s2 = [(n, k) for n, k in cfg_nodes_with_call(f, lambda k: callee_last(k) == 'send') if n in guard_region(g, t3[0], 'true')]
+            s2 = [(n, k) for n, k in cfg_nodes_with_call(f, lambda k: callee_last(k) == 'send') if n in holds_region(g, t3[0], True)]
             c.check(len(s2) == 1 and is_name(s2[0][1].args[0], rv), f, s2[0][1] if s2 else t3[0].ast, 'a string result is sent to the child once', kind='ast', tag='callback-sent')
-            t4 = [t for t in guard_region(g, t3[0], 'false') if t.kind == 'test' and norm(t.ast) == rv]
-            brk = [n for t in t4 for n in guard_region(g, t, 'true') if n.kind == 'stmt' and isinstance(n.ast, ast.Break)]
+            t4 = [t for t in holds_region(g, t3[0], False) if t.kind == 'test' and norm(core(t)) == rv]
+            brk = [n for t in t4 for n in holds_region(g, t, True) if n.kind == 'stmt' and isinstance(n.ast, ast.Break)]
             c.check(bool(brk), f, t4[0].ast if t4 else t3[0].ast, 'a true result stops the run', kind='path', tag='callback-stop')
-    er = guard_region(g, t2, 'false')
+    er = holds_region(g, t2, False)
     rs = [n for n in er if n.kind == 'stmt' and isinstance(n.ast, ast.Raise)]
     c.check(len(rs) == 1 and raised_class(rs[0].ast, f) == 'TypeError', f, rs[0].ast if rs else t2.ast, 'any other response object raises TypeError', kind='ast', tag='case-else')
 
